@@ -9,6 +9,8 @@ use liwe::fs::{new_for_path, new_from_hashmap};
 use router::{LspClient, Router, ServerConfig};
 
 pub mod router;
+#[cfg(iwe_verif)]
+pub mod verif;
 
 #[derive(Debug, serde::Deserialize, serde::Serialize, Clone, PartialEq, Default)]
 pub struct ServerParams {
